@@ -409,6 +409,7 @@ pub fn run_history(cfg: &GenCfg, seed: u64, index: u64, rep: &mut Report) {
         x -= cfg.w_drop;
         // --- Ring::poll
         if x < cfg.w_ring_poll {
+            w.check_rbufs();
             w.ring_poll();
             if rng.chance(1, 3) {
                 w.ring_poll_drain();
@@ -459,8 +460,7 @@ pub fn run_history(cfg: &GenCfg, seed: u64, index: u64, rep: &mut Report) {
         // --- drop results handed out earlier
         if !w.kept_rbufs.is_empty() && rng.chance(1, 2) {
             let n = rng.below(w.kept_rbufs.len() as u64) as usize;
-            let b = w.kept_rbufs.swap_remove(n);
-            alloc::a10(|| drop(b));
+            w.drop_rbuf(n);
             w.ev("dropbuf".into());
         } else if !w.kept_afds.is_empty() {
             let n = rng.below(w.kept_afds.len() as u64) as usize;
@@ -546,6 +546,37 @@ pub fn run_history(cfg: &GenCfg, seed: u64, index: u64, rep: &mut Report) {
     w.collect_monitor_violations();
     if w.poisoned {
         return finish_poisoned(cfg, seed, index, w, rep);
+    }
+    // --- pool conservation: drop every operation and buffer, let the kernel
+    // finish what is left, then every buffer must be the kernel's again.
+    w.check_rbufs();
+    if w.env.as_ref().map(|e| e.pool.is_some()).unwrap_or(false) {
+        for i in 0..w.slots.len() {
+            if w.slots[i].op.is_some() {
+                w.drop_slot(i);
+            }
+        }
+        while !w.kept_rbufs.is_empty() {
+            w.drop_rbuf(0);
+        }
+        for _ in 0..4 {
+            w.ring_poll_drain();
+            let ids = simk::k().inflight_of(w.ring_fd);
+            if ids.is_empty() {
+                break;
+            }
+            for id in ids {
+                let st = simk::k().req(id).state;
+                let res = if st == ReqState::AwaitNotif { 0 } else { -libc::ECANCELED };
+                w.complete(id, res, false);
+            }
+        }
+        w.ring_poll_drain();
+        w.check_pool_conservation();
+        w.collect_monitor_violations();
+        if w.poisoned {
+            return finish_poisoned(cfg, seed, index, w, rep);
+        }
     }
     // --- teardown and ledgers
     w.teardown();
@@ -656,7 +687,9 @@ fn do_poll(w: &mut World, i: usize, rng: &mut Rng, cfg: &GenCfg, rep: &mut Repor
             let bufs = std::mem::take(&mut o.rbufs);
             let fds = std::mem::take(&mut o.afds);
             if keep {
-                w.kept_rbufs.extend(bufs);
+                for b in bufs {
+                    w.keep_rbuf(b);
+                }
                 w.kept_afds.extend(fds);
             } else {
                 alloc::a10(|| {
